@@ -135,6 +135,7 @@ func (w *WSeq) expectCause(row causeRow, res *wres) {
 		if want := nutCause[row.Nut]; res.Code != want {
 			w.c.MonitorFail("C20", fmt.Sprintf("C20/code/%s/got-%d-nut-%d", row.Cause, res.Code, want),
 				fmt.Sprintf("refusal cause %q (NUT: %s = %d) was answered with code %d, detail %q", row.Cause, row.Nut, want, res.Code, res.Detail), w.replay())
+			return
 		}
 	}
 	if row.WantVar != "" {
@@ -232,12 +233,16 @@ func runCauseTable(c *Ctx) {
 		c.Hist("cause", fmt.Sprintf("storage-fault-at-restore-write -> %d %s (fault consumed: %v)", r.Status, r.Canon, consumed))
 		w.causes["storage-fault-at-restore-write"] = true
 		if consumed && r.Status == 400 && string(r.Body) != stdErrBody {
-			w.c.MonitorFail("C20", "C20/internal-not-generic/mint/"+shapeOf(r), "a storage fault during mint was answered with "+string(r.Body)+" instead of the constant StandardErr body", w.replay())
+			w.internalNotGeneric("mint", r, "at the restore-previous-state write")
 		}
 	}
 	// the quote is now stuck PENDING (C07 territory): a further mint request is told so
 	_, r = w.WMint(q1, g.outputs(259, act), 0, plainT)
 	ex("mint-quote-pending", "QuotePending", "quote-pending", r)
+	// … and a poll shows a state NUT-04 does not list
+	if pr := w.WQuoteState(q1.Id, q1.Sym, "GET", false); pr != nil && pr.JV != nil && pr.JV.get("state") != nil {
+		c.Hist("cause", "poll of the stranded quote -> state "+pr.JV.get("state").S)
+	}
 
 	q2 := g.fund(259)
 	if q2 == nil {
@@ -390,7 +395,7 @@ func runCauseTable(c *Ctx) {
 		// GetMeltQuote failed: the code answers "quote does not exist"
 		c.Hist("cause", fmt.Sprintf("storage-fault-melt-quote-lookup -> %d %d %s", r.Status, r.Code, r.Detail))
 		if r.Status == 400 && string(r.Body) != stdErrBody {
-			w.c.MonitorFail("C20", "C20/internal-not-generic/melt/"+shapeOf(r), "a storage fault during melt was answered with "+string(r.Body)+" instead of the constant StandardErr body", w.replay())
+			w.internalNotGeneric("melt", r, "at GetMeltQuote")
 		}
 	}
 	w.ArmFault(0)
@@ -424,6 +429,10 @@ func runCauseTable(c *Ctx) {
 		ex("keyset-inactive-output", "InactiveKeysetSignatureRequest", "keyset-inactive", r)
 	}
 
+	// --- the two key ambiguities of the shared cache map (deterministic reproductions)
+	g.keyAmbiguity()
+	g.activeKeyCollision()
+
 	// coverage of the error variables (every variable some code path returns must have been answered at least once)
 	for _, e := range wireErrVars {
 		switch {
@@ -438,6 +447,20 @@ func runCauseTable(c *Ctx) {
 		}
 	}
 	c.Sample(map[string]any{"cause_table_first_ops": w.log[:min(len(w.log), 6)]})
+}
+
+// internalNotGeneric: a consumed storage fault led to a refusal whose body is not the constant StandardErr body.
+func (w *WSeq) internalNotGeneric(kind string, r *wres, how string) {
+	switch {
+	case r.JV != nil && r.JV.K == 'o' && len(r.JV.O) == 0:
+		// already reported by the shape monitor as C20/error-shape/<kind>/empty-object
+	case r.IsErr && r.Code == 20009 && r.Detail == "quote does not exist":
+		w.c.MonitorFail("C20", "C20/internal-not-generic/quote-lookup-answered-20009",
+			fmt.Sprintf("a storage fault (%s) during %s was answered with %s: a failing quote lookup is reported as 'quote does not exist'", how, kind, string(r.Body)), w.replay())
+	default:
+		w.c.MonitorFail("C20", "C20/internal-not-generic/"+kind+"/"+shapeOf(r),
+			fmt.Sprintf("a storage fault (%s) during %s was answered with %s instead of the constant StandardErr body", how, kind, short(string(r.Body))), w.replay())
+	}
 }
 
 func shapeOf(r *wres) string {
@@ -960,8 +983,7 @@ func (g *wgen) stepWire() {
 		consumed := w.Disarm()
 		// monitor: a consumed storage fault that leads to a refusal is reported with the constant StandardErr body
 		if consumed && lastRes != nil && lastRes.Status == 400 && string(lastRes.Body) != stdErrBody {
-			w.c.MonitorFail("C20", "C20/internal-not-generic/"+kind+"/"+shapeOf(lastRes),
-				fmt.Sprintf("a storage fault (call %d) during %s was answered with %s instead of the constant StandardErr body", fault, kind, short(string(lastRes.Body))), w.replay())
+			w.internalNotGeneric(kind, lastRes, fmt.Sprintf("storage call %d", fault))
 		}
 		if consumed && lastRes != nil {
 			w.c.Hist("storage-fault", fmt.Sprintf("%s fault@%d -> %d%s", kind, fault, lastRes.Status, codeSuffix(lastRes)))
